@@ -7,6 +7,7 @@ import random
 import front_gen as fg
 import front_mut as fm
 import frontside as fs
+import lexstage
 from vlib import Broken
 
 LEVEL = "proof"
@@ -433,6 +434,7 @@ def run(ck):
         if "obs" in r:
             cov["samples"].append({"texts": c.texts, "origin": c.origin,
                                    "observed": {k: r["obs"].get(k) for k in ("code", "cls", "file", "line")}})
+    lexstage.lex_stage(ck, "C08_lex.v", 1, 8, "C08")    # text level: the tokenizer (tools/lexstage.py)
     # the parser itself (token list -> reductions): LALR tables validated, driver modelled (tools/lrstage.py)
     import lrstage
     lrstage.lr_stage(ck, "C08_lr.v", lrstage.QUICK, lrstage.THOROUGH, "lr")
